@@ -6,7 +6,7 @@ import vcheck
 
 def _falsify(ctx, hb, profile, budget):
     rc, out, _ = vcheck.sh([hb, "falsify", str(ctx.seed), str(budget)], timeout=1500)
-    nfail, summary = 0, ""
+    nfail, summary, io = 0, "", {}
     for line in out.split("\n"):
         if line.startswith("{"):
             try:
@@ -14,13 +14,25 @@ def _falsify(ctx, hb, profile, budget):
             except ValueError:
                 continue
             f["profile"] = profile
-            f["replay"] = f"{hb} replay {' '.join(f.get('input', '').split()[1:])}"
+            toks = f.get("input", "").split()
+            f["replay"] = f"{hb} {'replay-err' if toks[:1] == ['E'] else 'replay'} {' '.join(toks[1:])}"
             nfail += 1
             ctx.add_failure(f)
+        elif line.startswith("#io "):
+            try:
+                io = json.loads(line[4:])
+            except ValueError:
+                pass
         elif line.startswith("evaluations="):
             summary = line.strip()
             ctx.evaluations += int(line.split()[0].split("=")[1])
     ctx.ob(f"falsifier-ran:{profile}", rc == 0 and summary != "", out[-300:] if rc else "no summary line")
+    # coverage round: sources failing with io::Error must reach both error closures of ReadAdapter (non_empty_reader_buffer_mut:
+    # &mut self methods, non_empty_reader_buffer: &self methods) with ErrorKind::UnexpectedEof and with other kinds
+    served = io.get("errors_served", {})
+    missing = [f"{k}|{site}" for k in ("eof", "int", "oth") for site in ("mut", "ref") if served.get(f"{k}|{site}", 0) == 0]
+    ctx.ob(f"io-error-sources-reach-both-closures:{profile}", not missing, "error kind x call site never served: " + ", ".join(missing))
+    ctx.notes.setdefault("io_error_sources", {})[profile] = io
     ctx.notes.setdefault("falsifier", {})[profile] = {"budget": budget, "reported_minimal_failures": nfail, "summary": summary}
 
 
@@ -28,13 +40,18 @@ def run(ctx):
     quick = ctx.tier == "quick"
     ctx.rule = ("correspondence: the same (chunking of a byte stream, operation sequence) through the real ReadAdapter over a chunk-replaying "
                 "std::io::Read and through the extracted Gallina state machine, results compared operation by operation (sequence ends with a "
-                "drain so that every byte's single consumption is observed); every 4th case also real SliceReader vs its model; "
+                "drain so that every byte's single consumption is observed); every 4th case also real SliceReader vs its model, every 4th "
+                "case (and every fixed boundary case, incl. end-of-data probes at every position and after EOF) also real std::io::Cursor vs "
+                "its model from position 0 / inside / beyond the end; "
                 "falsifier: real ReadAdapter vs real SliceReader on the concatenated bytes (only allowed difference: check_eor answering Ok for "
-                "Err while the source has not yet returned an end-of-stream read); distinct = distinct case lines")
+                "Err while the source has not yet returned an end-of-stream read), real Cursor vs real SliceReader (no allowance), and "
+                "ReadAdapter over sources whose read() fails with io::Error (robustness: no panic, documented error, no byte lost); "
+                "distinct = distinct case lines")
     ctx.assumptions += [
         "std::io::BufReader::{fill_buf,consume,buffer} with capacity 256 behave as modelled (fill_buf reads the source only when its buffer is "
         "exhausted, one read of at most 256 bytes); validated on every run by the correspondence over a chunk-replaying Read",
-        "the source returns no I/O errors and, for the refinement theorem, its end-of-stream is sticky (an empty read is never followed by data): "
+        "the theorems are about sources that return no I/O errors (an io::Error is outside the property's 'any byte stream'; the falsifier "
+        "checks robustness for such sources: no panic, UnexpectedEOF / UnknownError(kind) as documented, nothing consumed) and, for the refinement theorem, its end-of-stream is sticky (an empty read is never followed by data): "
         "std::io::Read's contract; sources with empty reads before EOF are covered by the correspondence and by C13_empty_read_is_eof_witness",
         "Vec::capacity() >= Vec::len(); buffers fit in memory (no allocation failure, positions < 2^64)",
         "String::from_utf8 validity is an uninterpreted predicate in the theorems (both readers apply it to the same bytes)",
@@ -60,7 +77,7 @@ def run(ctx):
                     except ValueError:
                         pass
             # which branches of the model (hence, by agreement, of the code) the cases reached
-            cases = "\n".join(l.split(" => ", 1)[0] for l in lines if " => " in l and not l.startswith("S ")) + "\n"
+            cases = "\n".join(l.split(" => ", 1)[0] for l in lines if " => " in l and l[:1] in ("d", "r")) + "\n"
             rc2, cov, _ = vcheck.sh([drv], input_=cases, timeout=1500, env={"C13_COV": "1"})
             covd = {}
             for l in cov.split("\n"):
@@ -77,6 +94,21 @@ def run(ctx):
                     "source:chunk>256-truncated", "source:empty-read-with-chunks-left", "peek:reader", "pop:reader", "has_more:reader"]
             missing = [k for k in need if covd.get(k, 0) == 0]
             ctx.ob(f"corr-reaches-all-paths:{profile}", not missing, "paths never reached by the generator: " + ", ".join(missing))
+            # coverage round: all three reader implementations are tied to their models, each required method with a successful and
+            # an end-of-data outcome (this is where Cursor's UnexpectedEOF branches and its check_eor run), Cursor also from a
+            # position inside and beyond the end of its buffer
+            dist = ctx.notes.get("input_distribution", {}).get(profile, {})
+            bro = dist.get("by_reader_op_result", {})
+            need3 = [f"{rd}|{op}|{res}" for rd in ("adapter", "slice", "cursor")
+                     for op, outs in (("u8", ("ok", "eof")), ("pk", ("ok", "eof")), ("rs", ("ok", "eof")), ("ra", ("ok", "eof")),
+                                      ("eor", ("ok", "eof")), ("more", ("t", "f")), ("usz", ("ok", "eof")), ("many", ("ok", "eof")),
+                                      ("str", ("ok", "eof", "err:inv")), ("bool", ("ok", "eof", "err:inv")))
+                     for res in outs]
+            miss3 = [k for k in need3 if bro.get(k, 0) == 0]
+            for k in ("cursor_cases", "cursor_offset_cases", "cursor_beyond_end_cases"):
+                if dist.get(k, 0) == 0:
+                    miss3.append(k)
+            ctx.ob(f"corr-three-readers-sampled:{profile}", not miss3, "reader x operation x outcome never compared with a model: " + ", ".join(miss3[:30]))
         budget = (8000 if quick else 300000) * (3 if ctx.broken() else 1)
         _falsify(ctx, hb, profile, budget)
     ctx.trusted.insert(0, "Coq 8.16.1 kernel + vm_compute (no native_compute); Print Assumptions under every theorem")
